@@ -1,0 +1,13 @@
+//go:build verif
+
+package encoding
+
+// Contracts for the deductive verifier in /verif (govc). Comment-only file: adds no code.
+
+// ParseHeaders: a header with one value is offered to the unmarshaler as that string, one with several as the list;
+// the destination is filled by the header unmarshaler (tag `header`, string values, canonical MIME keys).
+//@ func ParseHeaders
+//@   prop C05
+//@   opaque Unmarshal
+//@   loop 1 iteration-ensures [single-value-as-string-else-the-list] has(m, k) && (len(v) == 1 ==> typeis(m[k], string) && unbox(m[k], string) == v[0]) && (len(v) != 1 ==> typeis(m[k], []string) && unbox(m[k], []string) == v)
+//@   ensures [filled-by-the-header-unmarshaler] calls(headerUnmarshaler.Unmarshal) == 1 && arg(headerUnmarshaler.Unmarshal, 2) == v && result == ret(Unmarshal)
